@@ -420,8 +420,16 @@ class Seams:
         self.saved_os = []
 
     def install(self):
+        import sys
+
         for name in IO_MODULES:
-            m = importlib.import_module(name)
+            importlib.import_module(name)
+        # every loaded module of the library gets the stand-ins (not only the nine that do I/O today), so that a
+        # refactoring which moves a save function, or adds `import os` for an atomic rename, stays on the simulated disk
+        names = sorted(n for n, m in sys.modules.items() if m is not None and n.startswith("orquestra.quantum")
+                       and "testing" not in n and hasattr(m, "__dict__"))
+        for name in names:
+            m = sys.modules[name]
             had = "open" in m.__dict__
             self.saved.append((m, had, m.__dict__.get("open")))
             m.open = self.fs.open
